@@ -119,6 +119,7 @@ pub fn replay(w: &Value) -> Vec<(String, String)> {
     let mode = match w["mode"].as_str().and_then(mode_from_name) { Some(m) => m, None => return vec![] };
     RoundingMode::set_default(mode);
     run.seq(|l| match w["k"].as_str().unwrap_or("") {
+        "seq" => crate::seq::replay_case(w, l),
         "dd" => dd_case(w["a"].as_str().unwrap().parse().unwrap(), w["p"].as_u64().unwrap() as u8,
             w["b"].as_str().unwrap().parse().unwrap(), w["q"].as_u64().unwrap() as u8, mode, true, l),
         "di" => di_case(w["a"].as_str().unwrap().parse().unwrap(), w["p"].as_u64().unwrap() as u8,
@@ -187,6 +188,15 @@ pub fn run(tier: Tier) -> i32 {
         });
     }
     run.stage("integer operands", json!({"types":9,"operand_tuples":items.len(),"modes":8}));
+
+    // sequence exploration: chained operations from a seed set, results fed back as operands
+    {
+        let (d, cap) = if tier.thorough() { (3, 12000) } else { (2, 3000) };
+        let modes: Vec<RoundingMode> = if tier.thorough() { ALL_MODES.to_vec() } else { vec![ALL_MODES[5], ALL_MODES[3], ALL_MODES[0]] };
+        let (st, tr) = crate::seq::explore(&run, &[crate::seq::SOp::Div], d, cap, &modes);
+        run.stage("sequence exploration (breadth-first over reachable Decimals)", json!({"depth": d, "states": st, "transitions": tr, "modes": modes.len()}));
+        run.set_extra("sequence_exploration", json!({"depth": d, "states": st, "transitions": tr, "seeds": crate::seq::seeds().len(), "state_cap_per_level": cap}));
+    }
 
     let mut required: Vec<Vec<u64>> = Vec::new();
     for m in 0..8 { for path in [DivPath::Equal, DivPath::NarrowShift, DivPath::WideShift] { for rc in [RemClass::Exact, RemClass::BelowHalf, RemClass::Tie, RemClass::AboveHalf] {
